@@ -36,10 +36,10 @@ Classes == {"none", "i0", "i1", "i2"}
 ByValue == [nil |-> FALSE, t |-> [id \in AllIds |-> [cl \in Classes |-> cl \in {"i1", "i2"}]]]
 ByIdAndAbsent == [nil |-> FALSE, t |-> [id \in AllIds |-> [cl \in Classes |-> (id # "b") /\ cl # "i2" ]]]
 NoInc == [nil |-> TRUE, t |-> [id \in AllIds |-> [cl \in Classes |-> TRUE]]]
-Subs == << [updatesOnly |-> FALSE, mask |-> NilMask, inc |-> NoInc],
-           [updatesOnly |-> FALSE, mask |-> Mask(<<<<"i">>>>), inc |-> NoInc],
-           [updatesOnly |-> FALSE, mask |-> NilMask, inc |-> ByValue],
-           [updatesOnly |-> FALSE, mask |-> Mask(<<<<"f">>>>), inc |-> ByIdAndAbsent] >>
+Subs == << [pid |-> "", updatesOnly |-> FALSE, mask |-> NilMask, inc |-> NoInc],
+           [pid |-> "", updatesOnly |-> FALSE, mask |-> Mask(<<<<"i">>>>), inc |-> NoInc],
+           [pid |-> "", updatesOnly |-> FALSE, mask |-> NilMask, inc |-> ByValue],
+           [pid |-> "", updatesOnly |-> FALSE, mask |-> Mask(<<<<"f">>>>), inc |-> ByIdAndAbsent] >>
 
 ListView(s) == LET l == CollList(st, Subs[s].mask, Subs[s].inc) IN [k \in 1..Len(l) |-> [id |-> l[k].id, body |-> l[k].body]]
 
